@@ -436,11 +436,9 @@ def lookupResp (s : St) (rid : Nat) : Option Resp := (s.resps.find? (·.1 == rid
 def setResp (s : St) (rid : Nat) (r : Resp) : St :=
   { s with resps := s.resps.map fun p => if p.1 == rid then (rid, r) else p }
 
-/-- `wrap_func` -/
-def wrapFunc (r : Resp) (fresh : Nat) : Entry :=
-  match r.src, r.port, r.tmpl with
-  | none, none, none => .plain r.func
-  | src, port, tmpl => .matcher fresh src port tmpl r.func
+/-- `wrap_func`: always a distinct object per responder (repair D-C18-4: without filters it is
+    `functools.partial(fn.value, func)`, a matcher that accepts everything) -/
+def wrapFunc (r : Resp) (fresh : Nat) : Entry := .matcher fresh r.src r.port r.tmpl r.func
 
 /-- `self.active[key].append(func)` / `self.active[key] = [func]` -/
 def activeAppend (key : Str) (e : Entry) : List (Str × List Entry) → List (Str × List Entry)
